@@ -214,14 +214,15 @@ def gen(tier, rng):
     for ty in (0, 1):
         yield from exhaustive(1, ty)
     if quick:
-        yield from exhaustive(2, 1, rng, sample=6000)
-        yield from exhaustive(2, 0, rng, sample=1500)
-        yield from exhaustive(3, 1, rng, sample=3000)
+        yield from exhaustive(2, 1)
+        yield from exhaustive(2, 0, rng, sample=4000)
+        yield from exhaustive(3, 1, rng, sample=8000)
+        yield from exhaustive(3, 0, rng, sample=1000)
     else:
         yield from exhaustive(2, 1)
         yield from exhaustive(2, 0)
-        yield from exhaustive(3, 1, rng, sample=60000)
-        yield from exhaustive(3, 0, rng, sample=10000)
+        yield from exhaustive(3, 1, rng, sample=150000)
+        yield from exhaustive(3, 0, rng, sample=30000)
     # --- degenerate programs: no variable at all, a lone variable, constants only
     for ty in (0, 1):
         pre, c = prefix(ty)
@@ -230,7 +231,7 @@ def gen(tier, rng):
         yield case(ty, [pre[2], [5, 0, 0], [2, 2, 0, 1], [6, [0, 1, 2]]], [0, 1, 2, 3])
         yield case(ty, [pre[0], [6, []], [2, 0, 1, 0]], [0, 1, 2])
     # --- random programs: 1..40 instructions, 1..4 variables, heavy reuse
-    n = 9000 if quick else 120000
+    n = 25000 if quick else 250000
     for i in range(n):
         ty = 1 if rng.random() < 0.6 else 0
         r = rng.random()
@@ -242,7 +243,7 @@ def gen(tier, rng):
         outs = list(range(size)) if size <= 6 else choose_outs(rng, size)
         yield case(ty, body, outs)
     # --- field operations only, long chains with fan-out (accumulation over many paths)
-    for i in range(600 if quick else 6000):
+    for i in range(1500 if quick else 15000):
         ty = rng.randrange(2)
         size = rng.randrange(10, 30 if ty == 0 else 41)
         body = random_prog(rng, ty, size, rng.randrange(1, 4), real=False, pconst=0.05)
@@ -263,16 +264,32 @@ def nontrivial(case_line, model_out):
     return False
 
 
+KIND_NAMES = {0: "var", 1: "const", 2: "rec_op_rec", 3: "rec_op_num", 4: "num_op_rec", 5: "unary", 6: "sum",
+              7: "user_unary", 8: "user_binary"}
+BOP = ["add", "sub", "mul", "div", "pow"]
+UOP = ["neg", "sin", "cos", "exp", "ln", "sqrt"]
+
+
 def distribution(lines):
-    kinds = {}
-    sizes = {}
+    """instruction-kind histogram over all generated programs (body is field 3 for C04, 4 for C05)"""
+    kinds, types, sizes = {}, {}, {}
     for l in lines:
-        body = l.count("(") - 3
-        b = "1-3" if body <= 4 else "4-8" if body <= 9 else "9-20" if body <= 22 else "21-40"
+        t = parse_sx(l)
+        ty, body = (t[2], t[3]) if t[0] == 4 else (t[2], t[4])
+        types["ty%d" % ty] = types.get("ty%d" % ty, 0) + 1
+        n = len(body)
+        b = "1-4" if n <= 4 else "5-8" if n <= 8 else "9-20" if n <= 20 else "21-40"
         sizes[b] = sizes.get(b, 0) + 1
-        ty = l.split()[2]
-        kinds["ty" + ty] = kinds.get("ty" + ty, 0) + 1
-    return {"element_type": kinds, "approx_program_size": sizes}
+        for ins in body:
+            k = KIND_NAMES[ins[0]]
+            if ins[0] in (2, 3, 4):
+                k += ":" + BOP[ins[1]]
+            elif ins[0] == 5:
+                k += ":" + UOP[ins[1]]
+            elif ins[0] == 6:
+                k += ":%d" % min(len(ins[1]), 3)
+            kinds[k] = kinds.get(k, 0) + 1
+    return {"element_type": types, "program_size": sizes, "instructions": dict(sorted(kinds.items()))}
 
 
 ASSUMPTIONS = [
